@@ -31,7 +31,7 @@ pub fn run(seed: u64, n: usize, outdir: &str, _corpus: Option<&str>) -> std::io:
     let mut dist: BTreeMap<String, usize> = BTreeMap::new();
     let mut samples = vec![];
     let mut master = Rng::new(seed ^ 0xC20);
-    let pool = ["名詞", "動詞", "*", "a", "b", "一般", "x y"];
+    let pool = ["名詞", "動詞", "*", "a", "b", "一般", "x y", "\u{3000}", "b ", " c"];
     for _ in 0..n {
         let sub = master.next();
         let mut rng = Rng(sub);
